@@ -123,6 +123,8 @@ class CFunc:
                 yield s
                 if isinstance(s, (CFor, CWhile)):
                     yield from rec(s.body)
+                    if isinstance(s, CWhile):
+                        yield from rec(getattr(s, 'steps', None) or [])
                 elif isinstance(s, CIf):
                     yield from rec(s.body)
                     yield from rec(s.orelse)
